@@ -99,6 +99,19 @@ theorem invA_step (w : World) (op : Op) (hw : Inv w) (hA : InvA w) : InvA (w.ste
       have hn' : w.h.arch = none := by cases h : w.h.arch <;> simp_all
       have := un_attached w hw.un hn'
       exact ⟨fun i hi => by simp [this, Holder.alloc] at hi, by simp [this, Holder.alloc]⟩
+  case initb a b =>
+    simp only [World.step, World.init]
+    split
+    · exact hA
+    · rename_i hn
+      have hn' : w.h.arch = none := by cases h : w.h.arch <;> simp_all
+      have := un_attached w hw.un hn'
+      exact ⟨fun i hi => by simp [this, Holder.alloc] at hi, by simp [this, Holder.alloc]⟩
+  case relocate b =>
+    simp only [World.step]
+    split
+    · exact hA
+    · exact ⟨hA.att, hA.nd⟩
   case reset hard =>
     simp only [World.step, World.reset]
     split
